@@ -10,6 +10,7 @@ import (
 	"fmt"
 	"math"
 	"math/big"
+	"strings"
 
 	"github.com/tuneinsight/lattigo/v6/ring"
 	"github.com/tuneinsight/lattigo/v6/utils/sampling"
@@ -40,13 +41,23 @@ func c17Centre(chain []uint64, limbs []uint64) (x *big.Int, ok bool) {
 }
 
 func c17Probes(c *Ctx) {
-	c17ProbeDeterminism(c)
-	c17ProbeUniform(c)
-	c17ProbeTernary(c)
-	c17ProbeGauss(c)
-	c17ProbeReadAndAdd(c)
-	c17ProbeMont(c)
-	c17ProbeStats(c)
+	// a Go panic inside the real code must not abort the run: it becomes a failing probe
+	safe := func(name string, f func(*Ctx)) {
+		defer func() {
+			if r := recover(); r != nil {
+				c.Probe("no-panic", "in="+name, "C17/"+name+"/panic", strings.ReplaceAll(fmt.Sprint(r), "\n", " "))
+			}
+		}()
+		f(c)
+	}
+	safe("views", c17ProbeViews)
+	safe("determinism", c17ProbeDeterminism)
+	safe("uniform", c17ProbeUniform)
+	safe("ternary", c17ProbeTernary)
+	safe("gauss", c17ProbeGauss)
+	safe("readandadd", c17ProbeReadAndAdd)
+	safe("mont", c17ProbeMont)
+	safe("stats", c17ProbeStats)
 }
 
 func c17RandKinds(c *Ctx, N int) []c17Kind {
